@@ -1,11 +1,11 @@
 import SqlProofs.CteShape.Skeletons
-import SqlProofs.CteShape.Table.T09  -- build-order only (three lanes: a decided lemma of ten WITH statements needs 5-6 GB)
-/-! CTE skeleton table, entries 120 … 129: kernel evaluation of the real lexer rules, `groupStatement` and `getType` -/
+import SqlProofs.CteShape.Table.T09  -- build-order only (three lanes: a decided lemma of five WITH statements needs about 5 GB)
+/-! CTE skeleton table, entries 60 … 64: kernel evaluation of the real lexer rules, `groupStatement` and `getType` -/
 namespace Sql
 namespace Acc
 
 set_option maxRecDepth 1000000 in
-theorem cte_120 : ((cteSkels.drop 120).take 10).all cteCheck = true := by decide +kernel
+theorem cte_060 : ((cteSkels.drop 60).take 5).all cteCheck = true := by decide +kernel
 
 end Acc
 end Sql
